@@ -2,6 +2,7 @@ package main
 
 import (
 	"fmt"
+	"google.golang.org/protobuf/encoding/protojson"
 	"math/rand"
 	"sort"
 	"strconv"
@@ -96,10 +97,10 @@ func operandsNotEdges(m *Model) bool {
 
 type specRes struct {
 	Unconverged bool
-	Reject  bool
-	Kinds   string
-	Weights map[string]map[string]int
-	Wild    map[string][]string
+	Reject      bool
+	Kinds       string
+	Weights     map[string]map[string]int
+	Wild        map[string][]string
 }
 
 func parseSpec(s string) specRes {
@@ -330,7 +331,8 @@ func genWModels(rng *rand.Rand, n int) []*Model {
 }
 
 func wInput(wc *wCase, i int) map[string]any {
-	return map[string]any{"model": wc.canon, "dfs_start_order": wc.orderOf(i)}
+	js, _ := protojson.Marshal(wc.pm)
+	return map[string]any{"model": wc.canon, "model_json": string(js), "dfs_start_order": wc.orderOf(i)}
 }
 
 var wRuleCommon = "graph-biased generated models (recursive usersets and TTUs, interlocking tuple cycles, rewrite-only cycles, TTUs over 1-3 parent types, wildcards in and behind cycles, " +
